@@ -98,6 +98,10 @@ class Var(Aggregation):
         self.ddof = ddof
 
     def _compute_result(self, x, x2, n):
+        # the variance of no observation is NaN, as in pandas (the state of
+        # a Series aggregation starts from plain integers: 0 / 0 would raise)
+        if isinstance(n, Number) and n == 0:
+            return float('nan')
         result = (x2 / n) - (x / n) ** 2
         if self.ddof != 0:
             result = result * n / (n - self.ddof)
@@ -560,6 +564,10 @@ class GroupbyMean(GroupbyAggregation):
 
 class GroupbyVar(GroupbyAggregation):
     def _compute_result(self, x, x2, n):
+        # the variance of no observation is NaN, as in pandas (the state of
+        # a Series aggregation starts from plain integers: 0 / 0 would raise)
+        if isinstance(n, Number) and n == 0:
+            return float('nan')
         result = (x2 / n) - (x / n) ** 2
         if self.ddof != 0:
             result = result * n / (n - self.ddof)
